@@ -290,8 +290,13 @@ func (q *queue) sendLowTimeout(msg *Message, timeout time.Duration) error {
 		return types.ErrChannelClosed
 	}
 	if timeout == -1 {
-		sub.low <- msg
-		return nil
+		// like the synchronous path: a sender parked on a full channel must be woken when the topic is closed
+		select {
+		case sub.low <- msg:
+			return nil
+		case <-sub.done:
+			return types.ErrChannelClosed
+		}
 	}
 	if timeout == 0 {
 		return q.sendAsyn(msg)
